@@ -211,6 +211,7 @@ class Labels:
     STYLES = ("int", "str", "tuple", "mixed")
     STYLES_NUM = STYLES + ("num",)      # opt-in: label sets whose native order differs from ordering_key's
     STYLES_X = STYLES + ("num", "numstr", "boolstr")   # opt-in: plus float/int/str mixes and bool labels
+    STYLES_XEQ = STYLES_X + ("xeq",)    # opt-in: plus labels equal across types (order-insensitive harnesses only)
 
     def __init__(self, style, n=64):
         self.style = style
@@ -232,15 +233,28 @@ class Labels:
             # bool labels (hash/compare equal to 0 and 1, but are not ints for isinstance(x, bool) dispatch) next to strings;
             # ordering_key: "<class 'bool'>" < "<class 'str'>"
             self.l = [False, True] + ["s%03d" % i for i in range(2, n)]
+        elif style == "xeq":
+            # labels that compare (and hash) equal across types: id i is spelled i, float(i) or bool(i) from one occurrence
+            # to the next.  They are ONE variable for dict lookups, `variables`, `mapping` and evaluation, but
+            # ordering_key sorts a key by type name first, so one monomial can have several "canonical" spellings.
+            self.l = list(range(n))
         else:  # ordering_key sorts by str(type): int < str < tuple
             self.l = [i for i in range(3)] + ["s%03d" % i for i in range(3, 6)] + [("t", i) for i in range(6, n)]
         self.inv = {x: i for i, x in enumerate(self.l)}
+        self._occ = 0
 
     def lab(self, i):
+        if self.style == "xeq":
+            self._occ += 1
+            r = (self._occ * 7 + i * 3) % 4
+            if r == 1:
+                return float(i)
+            if r == 2 and i in (0, 1):
+                return bool(i)
         return self.l[i]
 
     def key(self, ids):
-        return tuple(self.l[i] for i in ids)
+        return tuple(self.lab(i) for i in ids)
 
     def ident(self, x):
         if isinstance(x, str) and x.startswith("__a"):
@@ -258,12 +272,20 @@ def canon_terms(d, labels):
     for k, v in d.items():
         ids = labels.ids(k) if isinstance(k, tuple) else [labels.ident(k)]
         out.append([sorted(ids), fs(v)])
+    if getattr(labels, "style", None) == "xeq":
+        # several stored spellings of one monomial (see Labels "xeq"): compare the represented polynomial
+        acc = {}
+        for ids, v in out:
+            acc[tuple(ids)] = acc.get(tuple(ids), Fraction(0)) + Fraction(v)
+        out = [[list(k), fs(v)] for k, v in acc.items() if v != 0]
     out.sort(key=lambda t: (t[0], t[1]))
     return out
 
 def keys_are_canonical(d):
     """direct check on the implementation's own keys: sorted by ordering_key, duplicate-free, nonzero values"""
-    from qubovert.utils import ordering_key
+    # the documented rule ("sort by type first, and then by object"), re-stated here so that the oracle does not depend on
+    # the implementation's own ordering_key (a stale / memoised one would agree with itself)
+    ordering_key = lambda x: (str(type(x)), x)
     for k, v in d.items():
         if not isinstance(k, tuple):
             return "non-tuple key %r" % (k,)
